@@ -55,12 +55,29 @@ inductive Ev where
 
 /-! ### MultiInstrumentation -/
 
-/-- an instrumentation object: a recording leaf or a `MultiInstrumentation(*children)` -/
+def Stage.idx : Stage → Nat
+  | .query => 0 | .parsing => 1 | .validation => 2 | .execution => 3
+
+/-- which of the 10 methods of the `Instrumentation` interface a hook call goes to
+    (`on_query_start` = 0, `on_query_end` = 1, …, `on_field_start` = 8, `on_field_end` = 9) -/
+def Hook.kind : Hook → Nat
+  | .stage s b => 2 * s.idx + (if b then 0 else 1)
+  | .field _ b => 8 + (if b then 0 else 1)
+
+/-- every method overridden -/
+def allKinds : List Nat := [0, 1, 2, 3, 4, 5, 6, 7, 8, 9]
+
+/-- an instrumentation object: a recording `Instrumentation` subclass instance that overrides
+    the methods `overrides` (the others are the no-ops of the base class), or a
+    `MultiInstrumentation(*children)` -/
 inductive Instr where
-  | leaf (i : Nat)
+  | leaf (i : Nat) (overrides : List Nat)
   | multi (cs : List Instr)
 
-instance : Inhabited Instr := ⟨.leaf 0⟩
+instance : Inhabited Instr := ⟨.leaf 0 allKinds⟩
+
+/-- does an instance overriding `m` record hook `h` -/
+def sees (m : List Nat) (h : Hook) : Bool := m.contains h.kind
 
 /-- recorded events: hooks carry the identity of the leaf instrumentation that saw them -/
 inductive REv where
@@ -71,7 +88,7 @@ inductive REv where
 mutual
 /-- calling hook `h` on an instrumentation object -/
 def Instr.emit : Instr → Hook → List REv
-  | .leaf i, h => [.hook i h]
+  | .leaf i m, h => if sees m h then [.hook i h] else []      -- base-class no-op when not overridden
   | .multi cs, h => if h.isStart then emitAll cs h else emitAllRev cs h
 /-- `for i in self.instrumentations: i.on_x_start()` -/
 def emitAll : List Instr → Hook → List REv
@@ -84,11 +101,11 @@ def emitAllRev : List Instr → Hook → List REv
 end
 
 mutual
-/-- the recording leaves, in order -/
-def Instr.leaves : Instr → List Nat
-  | .leaf i => [i]
+/-- the recording leaves (identity, overridden methods), in order -/
+def Instr.leaves : Instr → List (Nat × List Nat)
+  | .leaf i m => [(i, m)]
   | .multi cs => leavesAll cs
-def leavesAll : List Instr → List Nat
+def leavesAll : List Instr → List (Nat × List Nat)
   | [] => []
   | c :: cs => c.leaves ++ leavesAll cs
 end
